@@ -444,10 +444,34 @@ func (x *explorer) runSchedule(prefix []int) (trace []step, viol *violation) {
 				enabled = append(enabled, w.idx)
 			}
 		}
+		if len(enabled) == 0 && count(wLockWait) > 0 {
+			// Nobody is parked mid-operation, so nobody can hold a
+			// lock legitimately. A waiter that was just handed the
+			// lock may not have been scheduled yet on a busy
+			// machine: a leaked lock stays leaked, so waiting
+			// costs nothing but time in the failing case.
+			deadline := time.Now().Add(5 * time.Second)
+			woken := false
+			for !woken && time.Now().Before(deadline) {
+				time.Sleep(10 * time.Millisecond)
+				for _, w := range ws {
+					if w.state == wLockWait && !lockWait(goroutineState(w.gid.Load())) {
+						w.state = wPending
+						woken = true
+					}
+				}
+			}
+			if woken {
+				if v := settle(n); v != nil {
+					releaseAll()
+					return trace, v
+				}
+				n--
+				continue
+			}
+		}
 		if len(enabled) == 0 {
 			if count(wLockWait) > 0 {
-				// Nobody is parked mid-operation, so nobody can
-				// hold a lock legitimately, yet operations wait.
 				var who []string
 				for _, w := range ws {
 					if w.state == wLockWait {
